@@ -35,14 +35,16 @@ def triple(refs, ri, a, b, c, rev, ro):
     return worlds.apply_edit(q, ('chimera', wc, 27000.0))
 
 
-def candidate_worlds(n_queries):
+def candidate_worlds(n_queries, equal_flanks=False):
     refs = e2e.std_refs()
     _, pool = e2e.query_pool()
     plain = [p for nm, p in pool if nm.startswith('plain')]
     chim = [p for nm, p in pool if nm.startswith('chimera') and '140000' in nm or nm.startswith('indel')]
     out = []
     for t, (ri, ro, rev) in enumerate(((0, 1, False), (1, 2, False), (2, 0, True), (0, 2, True), (1, 0, False), (2, 1, False))):
-        tq = triple(refs, ri, (5 + 3 * t, 9), (22 + t, 16), (40 + t, 12), rev, ro)
+        # equal_flanks: both second-pass fragments are noise-free copies with the same number of labels -> exactly equal confidence,
+        # so which of the two records survives the one-per-query filter depends on the order in which rows ARRIVE
+        tq = triple(refs, ri, (5 + 3 * t, 10 if equal_flanks else 9), (22 + t, 16), (40 + t, 10 if equal_flanks else 12), rev, ro)
         qs = [tq, chim[t % len(chim)], plain[t % len(plain)], plain[(t + 3) % len(plain)], chim[(t + 2) % len(chim)],
               [100.0, 20000.0]][:n_queries]
         ids = (30, 4, 17, 9, 5216, 2)
@@ -106,13 +108,15 @@ def prescan(world):
             frag.setdefault(cl[0]['query'], []).append(max([c['confidence'] for c in good], default=None))
     two = [q for q, v in frag.items() if len(v) == 2 and all(x is not None for x in v)]
     later_better = [q for q in two if frag[q][1] > frag[q][0]]
+    tied = [q for q in two if frag[q][1] == frag[q][0]]
     rec2 = len(xmaptext.parse(obs.files.get('_2', ''))[2])
-    return dict(N=obs.map_calls[0], M=obs.map_calls[1], two_fragment_queries=two, later_fragment_better=later_better, second_pass_records=rec2)
+    return dict(N=obs.map_calls[0], M=obs.map_calls[1], two_fragment_queries=two, later_fragment_better=later_better, tied_fragment_queries=tied, second_pass_records=rec2)
 
 
 class Schedules(core.Layer):
-    def __init__(self, name, n_queries, W, n_worlds, seed, perturb_call1, cli_ks, optional=False):
+    def __init__(self, name, n_queries, W, n_worlds, seed, perturb_call1, cli_ks, optional=False, equal_flanks=False, fifo=True):
         self.name, self.optional = name, optional
+        self.equal_flanks, self.fifo = equal_flanks, fifo
         self.n_queries, self.W, self.n_worlds, self.seed = n_queries, W, n_worlds, seed
         self.perturb_call1 = perturb_call1
         self.cli_ks = cli_ks
@@ -128,10 +132,12 @@ class Schedules(core.Layer):
         line = next((l for l in out.stdout.splitlines() if l.startswith('POOLPROBE ')), None)
         self.probe = json.loads(line[len('POOLPROBE '):]) if line else dict(ok=False, error=(out.stdout + out.stderr)[-600:])
         # 2. select worlds
-        for w in candidate_worlds(self.n_queries):
+        for w in candidate_worlds(self.n_queries, self.equal_flanks):
             st, info = core.run_isolated(prescan, w)     # never run COMA tasks in this process: workers inherit its state
             if st != 'ok':
                 raise RuntimeError('prescan failed: %s' % info)
+            if info and self.equal_flanks and not info.get('tied_fragment_queries'):
+                continue
             if info and info['M'] >= 3 and info['second_pass_records'] >= 2 and info['two_fragment_queries']:
                 base, calls, err = execute(w, None, None)
                 if err:
@@ -144,7 +150,7 @@ class Schedules(core.Layer):
             N, M = sel['info']['N'], sel['info']['M']
             p1 = list(cpool.partitions(N, self.W))
             p2 = list(cpool.partitions(M, self.W))
-            for a1 in p1:
+            for a1 in (p1 if self.fifo else p1[:1]):
                 for a2 in p2:
                     self.items.append((wi, 'fifo', dict(assign=a1), dict(assign=a2)))
             for a2 in p2:
@@ -156,8 +162,12 @@ class Schedules(core.Layer):
                 for a1 in p1:
                     for o in perturbed_orders(a1):
                         self.items.append((wi, 'perturbed', dict(assign=a1, order=o), dict(assign=[0] * M)))
-            for o1, o2 in ((list(range(N))[::-1], list(range(M))[::-1]), (list(range(1, N)) + [0], list(range(1, M)) + [0])):
-                self.items.append((wi, 'completion', dict(assign=[i % 2 for i in range(N)], order=o1), dict(assign=[i % 2 for i in range(M)], order=o2)))
+            orders2 = [list(o) for o in itertools.permutations(range(M))] if M <= 4 else [list(range(M))[::-1], list(range(1, M)) + [0]]
+            for o2 in orders2:
+                if o2 != sorted(o2):
+                    self.items.append((wi, 'completion', dict(assign=[i % 2 for i in range(N)], order=list(range(N))[::-1]),
+                                       dict(assign=[i % 2 for i in range(M)], order=o2)))
+            self.items.append((wi, 'completion', dict(assign=[i % 2 for i in range(N)], order=list(range(1, N)) + [0]), dict(assign=[0] * M)))
             self.items.append((wi, 'repeat', None, None))
             for hs in sorted({0, 1, 2 + self.seed % 1000}):
                 self.items.append((wi, 'hashseed', hs, dict(assign=[i % 2 for i in range(N)])))
@@ -265,9 +275,10 @@ def run_fresh(world, s1, s2, hashseed):
 
 
 def layers(tier, seed):
+    tie = Schedules('ties:N4,W2', 4, 2, 1, seed, False, (2,), equal_flanks=True, fifo=False)
     if tier == 'quick':
-        return [Schedules('N4,W3', 4, 3, 1, seed, False, (1, 3, 16))]
-    return [Schedules('N4,W3', 4, 3, 1, seed, True, (1, 2, 3, 5, 8, 16)), Schedules('N5,W4', 5, 4, 1, seed, False, (2, 3)),
+        return [Schedules('N4,W3', 4, 3, 1, seed, False, (1, 3, 16)), tie]
+    return [Schedules('N4,W3', 4, 3, 1, seed, True, (1, 2, 3, 5, 8, 16)), tie, Schedules('N5,W4', 5, 4, 1, seed, False, (2, 3)),
             Schedules('N6,W4', 6, 4, 1, seed, False, (3,), optional=True)]
 
 
